@@ -393,8 +393,9 @@ def _run(sc, S, obs):
         def ctx():
             op = op_fixed if op_fixed is not None else cur['op']
             opi = opi_fixed if opi_fixed is not None else cur['opi']
-            cfg = {'pass_worker_id': pool.pool_params.pass_worker_id, 'shared': pool.pool_params.shared_objects is not None,
-                   'use_worker_state': pool.pool_params.use_worker_state}
+            cfg = S.inst_cfg.get(S.threads.index(S.cur)) or \
+                {'pass_worker_id': pool.pool_params.pass_worker_id, 'shared': pool.pool_params.shared_objects is not None,
+                 'use_worker_state': pool.pool_params.use_worker_state}
             return op, opi, cfg, op.get('elem', 'scalar'), op.get('fail') or {}, op.get('input') == 'nd'
 
         def token():
